@@ -118,6 +118,44 @@ theorem default_plane_keeps_metadata [One K] (phOf : M → R → K) (o : R) (w :
   rw [plane_multiply_handover, pixelscale_refusal]
   exact ⟨_, rfl, rfl, by simp only [ht, if_true], rfl, rfl⟩
 
+/-- every kind of step (Plane, Pupil, Image) keeps the wavelength and multiplies the data with phasors at the incoming wavelength -/
+theorem step_keeps_wavelength (phOf : M → R → K) (s : WStep K R M) (w w' : Wf K M) (h : s.apply phOf w = .ok w') :
+    w'.wavelength = w.wavelength ∧ w'.data = planeMultiply (phOf w.wavelength) s.planeM w.data := by
+  have base : ∀ (p : PlaneM K R) (px : Option (Int × Int)) (w1 : Wf K M), planeMultiplyW phOf p px w = .ok w1 →
+      w1.wavelength = w.wavelength ∧ w1.data = planeMultiply (phOf w.wavelength) p w.data := by
+    intro p px w1 h1
+    rw [plane_multiply_handover] at h1
+    cases hp : mulPixelscale px w.pixelscale with
+    | error e => rw [hp] at h1; simp [Except.map] at h1
+    | ok q => rw [hp] at h1; simp only [Except.map, Except.ok.injEq] at h1; subst h1; exact ⟨rfl, rfl⟩
+  cases s with
+  | plane p px => exact base p px w' h
+  | pupil p px fl =>
+    obtain ⟨_, hwl, w'', hw'', hdat, _, _⟩ := pupil_sets_focal_length phOf p px fl w w' h
+    exact ⟨hwl, by rw [hdat]; exact (base p px w'' hw'').2⟩
+  | image p px =>
+    have h2 : planeMultiplyW phOf p px w = .ok w' := by rw [← image_multiply_eq_plane]; exact h
+    exact base p px w' h2
+
+/-- **along any chain of planes the wavelength never changes, and every phasor is built with that one wavelength**: if the chain
+`w * s1 * s2 * …` (Plane / Pupil / Image steps in any order) is not refused, the result has the initial wavelength and its fields
+are those of `chainMultiply` with `exp(2πi·opd/λ)` at the INITIAL wavelength in every plane -/
+theorem chain_keeps_wavelength (phOf : M → R → K) (steps : List (WStep K R M)) (w w' : Wf K M) (h : runW phOf steps w = .ok w') :
+    w'.wavelength = w.wavelength ∧ w'.data = chainMultiply (phOf w.wavelength) (steps.map WStep.planeM) w.data := by
+  induction steps generalizing w with
+  | nil => simp only [runW, Except.ok.injEq] at h; subst h; exact ⟨rfl, rfl⟩
+  | cons s r ih =>
+    unfold runW at h
+    cases hs : s.apply phOf w with
+    | error e => rw [hs] at h; simp at h
+    | ok w1 =>
+      rw [hs] at h
+      obtain ⟨h1, h2⟩ := step_keeps_wavelength phOf s w w1 hs
+      obtain ⟨h3, h4⟩ := ih w1 h
+      refine ⟨h3.trans h1, ?_⟩
+      rw [h4, h1, h2]
+      rfl
+
 /-- the multiplication is refused exactly when `_mul_pixelscale` refuses -/
 theorem plane_refuses_iff (phOf : M → R → K) (p : PlaneM K R) (ppx : Option (Int × Int)) (w : Wf K M) :
     (∃ e, planeMultiplyW phOf p ppx w = .error e) ↔ ∃ x y, ppx = some x ∧ w.pixelscale = some y ∧ x ≠ y := by
@@ -410,6 +448,19 @@ theorem default_plane_identity_list (ph : R → K) (o : R) (hph : ph o = 1) (dat
     (hd : ∀ f ∈ data, f.size1 = false ∧ (0 < f.arr.s0 ∧ 0 < f.arr.s1)) :
     planeMultiply ph ⟨.scalar 1, .scalar o, .scalar true⟩ data = data :=
   planeMultiply_default_id ph o hph data (fun f hf => ⟨(hd f hf).1, (pos_iff_valid f).mp (hd f hf).2⟩)
+
+/-- **a plane with default attributes changes nothing — the whole wavefront**: `Wavefront * Plane()` (amplitude 1, flat OPD `o` with
+phase factor 1, 0-d mask, no pixel scale) returns the wavefront itself — same wavelength, focal length (truthy), pixel scale, shape and
+the very same list of fields — for any number of array fields (one-element fields: `default_plane_identity`) -/
+theorem default_plane_changes_nothing {M : Type} [FocalLike M] (phOf : M → R → K) (o : R) (w : Wf K M)
+    (hph : phOf w.wavelength o = 1) (ht : FocalLike.truthy w.focal = true)
+    (hd : ∀ f ∈ w.data, f.size1 = false ∧ (0 < f.arr.s0 ∧ 0 < f.arr.s1)) :
+    planeMultiplyW phOf ⟨.scalar 1, .scalar o, .scalar true⟩ none w = .ok w := by
+  rw [plane_multiply_handover, pixelscale_refusal]
+  simp only [ht, if_true, Except.map]
+  rw [default_plane_identity_list (phOf w.wavelength) o hph w.data hd]
+  obtain ⟨wl, fo, px, sh, dat⟩ := w
+  cases px <;> rfl
 
 /-- **the fresh wavefront through an all-scalar plane** (scalar amplitude, scalar OPD, 0-d mask — e.g. `Plane(amplitude=2)`): the
 single one-element field at the origin is multiplied by `amplitude · mask · exp(2πi·opd/λ)` and stays where it is -/
